@@ -383,10 +383,14 @@ func c11subscribe(c *core.Ctx, ds, doEffect *ssa.Function) {
 		if mc, ok := v.(*ssa.MakeClosure); ok {
 			return mc.Fn == ssa.Value(doSub)
 		}
-		// captured cell holding doSub
+		// captured cell holding the OnNext closure: resolve the free variable through the creation of doOb
 		if u, ok := v.(*ssa.UnOp); ok && u.Op == token.MUL {
 			if fv, ok := u.X.(*ssa.FreeVar); ok {
-				return fv.Name() == "doSub"
+				if b := capturedBinding(ds, doOb, fv.Name()); b != nil {
+					if mc, ok := b.(*ssa.MakeClosure); ok {
+						return mc.Fn == ssa.Value(doSub)
+					}
+				}
 			}
 		}
 		return false
